@@ -109,44 +109,72 @@ type DoneObs struct {
 }
 
 type HRes struct {
-	K      int            `json:"k"`
-	Fails  []failRec      `json:"fails"`
-	Trace  []Ev           `json:"trace"`
-	Done   [][]DoneObs    `json:"done"` // per client, in the order the results were accepted
-	Exec   [][]int        `json:"exec"` // per client, job ids in execution order
-	Stats  map[string]int `json:"stats"`
-	Diag   []string       `json:"diag,omitempty"`
-	Ms     int64          `json:"ms"`
-	Panic  string         `json:"panic,omitempty"`
-	Jobs   int            `json:"jobs"`
-	Frag   int            `json:"fragmented_jobs"`
-	Chan   int            `json:"channel_switches"`
-	Rekeys int            `json:"rekeys"`
+	K         int            `json:"k"`
+	Fails     []failRec      `json:"fails"`
+	Trace     []Ev           `json:"trace"`
+	Done      [][]DoneObs    `json:"done"` // per client, in the order the results were accepted
+	Exec      [][]int        `json:"exec"` // per client, job ids in execution order
+	Stats     map[string]int `json:"stats"`
+	Diag      []string       `json:"diag,omitempty"`
+	Ms        int64          `json:"ms"`
+	Panic     string         `json:"panic,omitempty"`
+	Jobs      int            `json:"jobs"`
+	Frag      int            `json:"fragmented_jobs"`
+	Chan      int            `json:"channel_switches"`
+	Rekeys    int            `json:"rekeys"`
+	Transport int            `json:"transport_fault_jobs"` // jobs not judged: their session logged a transport error
+	Retried   bool           `json:"retried"`
 }
 
 // ---------------------------------------------------------------- memory log (diagnostics only)
 
+type logLine struct {
+	t  time.Time
+	lv byte // E W I D
+	s  string
+}
+
+// memLog keeps what the c2 code logs about errors, warnings and channel start / end (the
+// transport-fault and channel-teardown classification of the oracle reads it).
 type memLog struct {
 	mu    sync.Mutex
-	lines []string
+	lines []logLine
 	t0    time.Time
 }
 
-func (m *memLog) add(lv, s string, v ...interface{}) {
+func (m *memLog) add(lv byte, s string, v ...interface{}) {
+	t := time.Now()
 	m.mu.Lock()
-	if len(m.lines) < 400 {
-		m.lines = append(m.lines, fmt.Sprintf("%6.1fms %s ", float64(time.Since(m.t0).Microseconds())/1000, lv)+clip(fmt.Sprintf(s, v...), 220))
+	if len(m.lines) < 60000 {
+		m.lines = append(m.lines, logLine{t, lv, clip(fmt.Sprintf(s, v...), 240)})
 	}
 	m.mu.Unlock()
 }
-func (m *memLog) snapshot(n int) []string {
-	m.mu.Lock()
-	defer m.mu.Unlock()
-	l := m.lines
-	if len(l) > n {
-		l = l[len(l)-n:]
+func (m *memLog) chanLine(lv byte, s string, v ...interface{}) {
+	if strings.Contains(s, "hannel") {
+		m.add(lv, s, v...)
 	}
-	return append([]string(nil), l...)
+}
+func (m *memLog) all() []logLine {
+	m.mu.Lock()
+	l := append([]logLine(nil), m.lines...)
+	m.mu.Unlock()
+	sort.SliceStable(l, func(a, b int) bool { return l[a].t.Before(l[b].t) })
+	return l
+}
+
+// snapshot: the last n error / warning lines (diagnostics in a replay file)
+func (m *memLog) snapshot(n int) []string {
+	var o []string
+	for _, l := range m.all() {
+		if l.lv == 'E' || l.lv == 'W' {
+			o = append(o, fmt.Sprintf("%7.1fms %c %s", float64(l.t.Sub(m.t0).Microseconds())/1000, l.lv, l.s))
+		}
+	}
+	if len(o) > n {
+		o = o[len(o)-n:]
+	}
+	return o
 }
 func clip(s string, n int) string {
 	if len(s) <= n {
@@ -161,14 +189,161 @@ func (*memLog) Print(_ ...interface{})               {}
 func (*memLog) Panic(_ ...interface{})               {}
 func (*memLog) Println(_ ...interface{})             {}
 func (*memLog) Panicln(_ ...interface{})             {}
-func (*memLog) Info(_ string, _ ...interface{})      {}
-func (m *memLog) Error(s string, v ...interface{})   { m.add("E", s, v...) }
-func (m *memLog) Fatal(s string, v ...interface{})   { m.add("F", s, v...) }
+func (m *memLog) Info(s string, v ...interface{})    { m.chanLine('I', s, v...) }
+func (m *memLog) Error(s string, v ...interface{})   { m.add('E', s, v...) }
+func (m *memLog) Fatal(s string, v ...interface{})   { m.add('E', s, v...) }
 func (*memLog) Trace(_ string, _ ...interface{})     {}
-func (*memLog) Debug(_ string, _ ...interface{})     {}
+func (m *memLog) Debug(s string, v ...interface{})   { m.chanLine('D', s, v...) }
 func (*memLog) Printf(_ string, _ ...interface{})    {}
 func (*memLog) Panicf(_ string, _ ...interface{})    {}
-func (m *memLog) Warning(s string, v ...interface{}) { m.add("W", s, v...) }
+func (m *memLog) Warning(s string, v ...interface{}) { m.add('W', s, v...) }
+
+// ---------------------------------------------------------------- what the log says about a lost job
+
+// transportLine: an error the c2 code logged about the CONNECTION of an exchange (connect,
+// read, write: refused, reset, deadline, EOF in the middle of a packet).  XMT drops the packets
+// of an exchange whose connection fails; that is a fault history, outside C05's quantifier.
+func transportLine(l logLine) bool {
+	if l.lv != 'E' {
+		return false
+	}
+	for _, k := range []string{"Error attempting to write Packet", "Error attempting to read Packet", "Error attempting to connect",
+		"Error reading Packet", "Error writing Packet", "Error reading next wire Packet"} {
+		if strings.Contains(l.s, k) {
+			return true
+		}
+	}
+	return false
+}
+
+// protocolLine: an error about the CONTENT of an exchange (parse, key, packing).  A peer that
+// fails this way closes the connection, which the other end then logs as a transport error:
+// such a transport error is not an environment fault.
+func protocolLine(l logLine) bool {
+	if l.lv != 'E' {
+		return false
+	}
+	for _, k := range []string{"Error processing", "Error packing", "KeyPair", "Error reading a lower level", "malformed", "invalid Multi"} {
+		if strings.Contains(l.s, k) {
+			return true
+		}
+	}
+	return false
+}
+
+func inChannelPath(l logLine) bool {
+	return strings.Contains(l.s, ":C->S:") || strings.Contains(l.s, ":S->C:")
+}
+
+// transportFault: did either end of the session log a transport error (outside the channel
+// loops, which tear connections down by design) between from and to, and no protocol error?
+func transportFault(lines []logLine, tag string, from, to time.Time) (bool, string) {
+	var first string
+	for _, l := range lines {
+		if l.t.Before(from) || l.t.After(to) || !strings.Contains(l.s, tag) {
+			continue
+		}
+		if protocolLine(l) {
+			return false, ""
+		}
+		if transportLine(l) && !inChannelPath(l) && first == "" {
+			first = l.s
+		}
+	}
+	return first != "", first
+}
+
+// chanEp is one channel of a session as the two ends logged it: start, first sign of its end,
+// whether the client ever joined it.
+type chanEp struct {
+	start, end time.Time
+	ended      bool
+	clientIn   bool
+	line       string
+}
+
+func episodes(lines []logLine, tag string) []chanEp {
+	var (
+		eps    []chanEp
+		client = "[" + tag + ":C->S:" // the client end logs "[ID:C->S:..", the server end "[name:ID:S->C:.."
+	)
+	for _, l := range lines {
+		if !strings.Contains(l.s, tag) {
+			continue
+		}
+		switch {
+		case strings.Contains(l.s, "Started Channel"):
+			if len(eps) == 0 || eps[len(eps)-1].ended {
+				eps = append(eps, chanEp{start: l.t})
+			}
+			if strings.Contains(l.s, client) {
+				eps[len(eps)-1].clientIn = true
+			}
+		case strings.Contains(l.s, "indicated channel close") || strings.Contains(l.s, "Breaking Channel") ||
+			strings.Contains(l.s, "Closed Channel") || (l.lv == 'E' && inChannelPath(l)):
+			if len(eps) == 0 {
+				eps = append(eps, chanEp{start: l.t, clientIn: true})
+			}
+			if e := &eps[len(eps)-1]; !e.ended {
+				e.ended, e.end, e.line = true, l.t, l.s
+			}
+		}
+	}
+	return eps
+}
+
+// chanVerdict classifies a job that never completed on a session that was in channel mode, by
+// the first channel that ended while the job was outstanding (the order of log lines of
+// different goroutines within a millisecond means nothing, so the verdict looks for signatures
+// in the lines around the end, not at which came first):
+//
+//	"chan"          the known defect: a packet in transit when a channel is torn down is lost.  The
+//	                channel ended because the operator switched it off, because a read deadline
+//	                of the channel expired (idle server, load), or by another connection-level end
+//	"chan-start"    the server started a channel the client never joined (the reply did not carry
+//	                the channel flag) and lost what its writer took
+//	"chan-collapse" both ends were in the channel, nobody asked for its end and no deadline
+//	                expired, yet the server's writer was told to stop
+//	"chan-open"     no channel ended while the job was outstanding
+func chanVerdict(lines []logLine, tag string, offs []time.Time, from time.Time) (string, string) {
+	for _, e := range episodes(lines, tag) {
+		if e.ended && e.end.Before(from.Add(-5*time.Millisecond)) {
+			continue
+		}
+		if !e.ended {
+			return "chan-open", ""
+		}
+		for _, t := range offs {
+			if !t.Before(e.start.Add(-50*time.Millisecond)) && !t.After(e.end.Add(5*time.Millisecond)) {
+				return "chan", e.line
+			}
+		}
+		if !e.clientIn {
+			return "chan-start", e.line
+		}
+		// The server's writer is told to stop (pick returns nil on a wake token) by conn.stop of
+		// its own reader, i.e. AFTER the reader logged its end, or after the operator's switch.
+		// If that line is the earliest sign of the end (causally first: the connection is only
+		// closed after it is logged), nobody had a reason to end this channel.
+		if strings.Contains(e.line, ":S->C:W] Session indicated channel close") {
+			return "chan-collapse", e.line
+		}
+		return "chan", e.line
+	}
+	return "chan-open", ""
+}
+
+// untracked: did the server log the result of this job as "un-tracked" around the time Task
+// returned?  (Session.Task queues the packet before it registers the Job.)
+func untracked(lines []logLine, tag string, id uint16, at time.Time) bool {
+	k := fmt.Sprintf("un-tracked Job %d!", id)
+	for _, l := range lines {
+		if l.lv == 'W' && strings.Contains(l.s, tag) && strings.Contains(l.s, k) && l.t.After(at.Add(-50*time.Millisecond)) && l.t.Before(at.Add(10*time.Millisecond)) {
+			return true
+		}
+	}
+	return false
+}
 
 // ---------------------------------------------------------------- echo tasker
 
@@ -256,6 +431,7 @@ type jobRec struct {
 	job     *c2.Job
 	nfrag   int
 
+	tTask    time.Time
 	inChan   bool          // the session was (asked to be) in channel mode at some time while the job was outstanding
 	lostCh   chan struct{} // closed by the monitor when nothing is in flight any more but the job is still tracked
 	isLost   bool
@@ -363,10 +539,10 @@ func waitCh(ch <-chan struct{}, d time.Duration) bool {
 }
 
 // shape of the history around a job: profile stack, fragmentation, channel mode during its life
-func shape(h Hist, j *jobRec) string {
+func shape(h Hist, j *jobRec, chanKind string) string {
 	s := ""
 	if j.inChan {
-		s += "/chan"
+		s += "/" + chanKind
 	}
 	if j.nfrag > 1 {
 		s += "/frag"
@@ -595,6 +771,7 @@ func runHist(h Hist, idSeed uint64) (res HRes) {
 		keys0    = make([]uint32, h.NCl)
 		chanUsed = make([]bool, h.NCl)
 		chanOn   = make([]bool, h.NCl)
+		offs     = make([][]time.Time, h.NCl) // SetChannel(false) calls
 		chanSeen = make([]bool, h.NCl)
 		serial   uint32
 		wg       sync.WaitGroup
@@ -693,6 +870,9 @@ func runHist(h Hist, idSeed uint64) (res HRes) {
 			c.ss.SetChannel(op.On)
 			r.trace = append(r.trace, Ev{T: "chan", C: op.C, On: op.On})
 			chanOn[op.C] = op.On
+			if !op.On {
+				offs[op.C] = append(offs[op.C], time.Now())
+			}
 			if op.On {
 				chanUsed[op.C] = true
 				markChan(r, op.C)
@@ -755,6 +935,7 @@ func runHist(h Hist, idSeed uint64) (res HRes) {
 					}
 				}
 			}
+			j.tTask = time.Now()
 			j.inChan = chanOn[op.C] || c2.VerifC05State(c.ss)&stChannel != 0 || c2.VerifC05State(c.sess)&stChannel != 0
 			r.lastEv[op.C] = time.Now()
 			r.jobs = append(r.jobs, j)
@@ -817,17 +998,46 @@ func runHist(h Hist, idSeed uint64) (res HRes) {
 	r.mu.Lock()
 	defer r.mu.Unlock()
 	res.Jobs = len(r.jobs)
-	lost := 0
+	var (
+		lost      = 0
+		logLines  = r.log.all()
+		verdictAt = time.Now()
+	)
 	for _, j := range r.jobs {
 		var (
 			c  = clients[j.c]
-			sh = shape(h, j)
+			sh = shape(h, j, "chan")
 		)
 		if j.nfrag > 1 {
 			res.Frag++
 		}
 		if atomic.LoadInt32(&j.waited) == 0 {
 			lost++
+			var (
+				tag  = c.id.String()
+				why  string
+				kind = "chan"
+				untr bool
+			)
+			switch {
+			case untracked(logLines, tag, j.id, j.tTask):
+				untr = true
+			case j.inChan && h.Profile == "none":
+				// which channel end (if any) took the packet?
+				kind, why = chanVerdict(logLines, tag, offs[j.c], j.tTask)
+			case !j.inChan:
+				// polling: an exchange whose connection failed drops its packets; a history with
+				// such a fault is outside the property (no faults in its quantifier)
+				if ok, line := transportFault(logLines, tag, j.tTask, verdictAt); ok {
+					res.Transport++
+					res.Diag = append(res.Diag, fmt.Sprintf("job %d of client %d not judged, transport error on its session: %s", j.id, j.c, clip(line, 160)))
+					continue
+				}
+			}
+			sh = shape(h, j, kind)
+			if untr {
+				sh, why = "/untracked-result", "the server logged its result as un-tracked when Task returned"
+			}
 			q, pk, nj := c2.VerifC05Queue(c.ss)
 			cq, cpk, _ := c2.VerifC05Queue(c.sess)
 			ran := 0
@@ -838,9 +1048,19 @@ func runHist(h Hist, idSeed uint64) (res HRes) {
 				}
 			}
 			c.mu.Unlock()
+			if why != "" {
+				why = "; first sign of the channel end: " + clip(why, 140)
+				if kind != "chan" {
+					for _, l := range logLines {
+						if strings.Contains(l.s, tag) && l.t.After(j.tTask.Add(-150*time.Millisecond)) && l.t.Before(j.tTask.Add(400*time.Millisecond)) {
+							res.Diag = append(res.Diag, fmt.Sprintf("%8.2fms %c %s", float64(l.t.Sub(j.tTask).Microseconds())/1000, l.lv, clip(l.s, 150)))
+						}
+					}
+				}
+			}
 			r.fails = append(r.fails, failRec{fmt.Sprintf("job %d (%s, %d bytes, %d fragment(s)) of client %d never completed (%s): status %d, executed %d time(s) on its client; "+
-				"server queue %d peek %v tracked %d frags %d, client queue %d peek %v frags %d", j.id, j.kind, j.size, j.nfrag, j.c, lostWhy(j, quiet), j.job.Status, ran,
-				q, pk, nj, c2.VerifC05Frags(c.ss), cq, cpk, c2.VerifC05Frags(c.sess)), "incomplete" + sh})
+				"server queue %d peek %v tracked %d frags %d, client queue %d peek %v frags %d%s", j.id, j.kind, j.size, j.nfrag, j.c, lostWhy(j, quiet), j.job.Status, ran,
+				q, pk, nj, c2.VerifC05Frags(c.ss), cq, cpk, c2.VerifC05Frags(c.sess), why), "incomplete" + sh})
 			continue
 		}
 		if j.job.Status != statusDone || j.job.Result == nil || len(j.job.Error) > 0 {
@@ -947,9 +1167,9 @@ func runHist(h Hist, idSeed uint64) (res HRes) {
 	}
 	res.Trace, res.Fails = r.trace, r.fails
 	if len(r.fails) > 0 {
-		res.Diag = r.log.snapshot(60)
+		res.Diag = append(res.Diag, r.log.snapshot(60)...)
 	}
-	res.Stats["log_lines"] = len(r.log.lines)
+	res.Stats["log_lines"] = len(r.log.all())
 	return res
 }
 
@@ -1133,6 +1353,12 @@ func corpus() []Hist {
 		{Class: "corpus-many-fragments", NCl: 2, Profile: "none", SleepMs: []int{5, 10}, MaxJobs: 40, MaxSlots: 100,
 			Ops: []Op{{Kind: "task", C: 0, Size: 5*F + 100, Seed: 31}, {Kind: "task", C: 1, Size: 6*F + 100, Seed: 32}, {Kind: "task", C: 0, Size: 100, Seed: 33},
 				{Kind: "task", C: 0, Size: 8*F + 100, Seed: 34}, {Kind: "task", C: 1, Size: 1024, Seed: 35}, {Kind: "task", C: 1, Size: 5*F + 100, Seed: 36}}},
+		{Class: "corpus-channel-reopen", NCl: 2, Profile: "none", SleepMs: []int{20, 20}, MaxJobs: 40, MaxSlots: 100,
+			Ops: []Op{{Kind: "task", C: 0, Size: 100, Seed: 41}, {Kind: "chan", C: 0, On: true}, {Kind: "pause", Val: 60}, {Kind: "task", C: 0, Size: 100, Seed: 42},
+				{Kind: "pause", Val: 60}, {Kind: "chan", C: 0, On: false}, {Kind: "pause", Val: 400}, {Kind: "task", C: 0, Size: 100, Seed: 43}, {Kind: "pause", Val: 200},
+				{Kind: "chan", C: 0, On: true}, {Kind: "pause", Val: 60}, {Kind: "task", C: 0, Size: 100, Seed: 44}, {Kind: "pause", Val: 300},
+				{Kind: "task", C: 0, Size: 1024, Seed: 45}, {Kind: "pause", Val: 300}, {Kind: "chan", C: 0, On: false}, {Kind: "pause", Val: 400},
+				{Kind: "chan", C: 0, On: true}, {Kind: "pause", Val: 60}, {Kind: "task", C: 0, Size: 1, Seed: 46}, {Kind: "task", C: 1, Size: 100, Seed: 47}}},
 		teardown("corpus-channel-teardown", 100, 44),
 		teardown("corpus-channel-teardown-frag", F+1, 14),
 		{Class: "corpus-channel-xorzlib", NCl: 2, Profile: "xorzlib", SleepMs: []int{20, 20}, MaxJobs: 40, MaxSlots: 100,
@@ -1232,10 +1458,12 @@ func childMain(file string, par int) {
 	task.Mappings[echoID] = echoTasker
 	task.Mappings[gatedID] = gatedTasker
 	var (
-		w   = bufio.NewWriter(os.Stdout)
-		wmu sync.Mutex
-		ch  = make(chan Hist)
-		wg  sync.WaitGroup
+		w     = bufio.NewWriter(os.Stdout)
+		wmu   sync.Mutex
+		ch    = make(chan Hist)
+		wg    sync.WaitGroup
+		rmu   sync.Mutex
+		retry []Hist
 	)
 	emit := func(tag string, v interface{}) {
 		b, _ := json.Marshal(v)
@@ -1259,9 +1487,15 @@ func childMain(file string, par int) {
 				var res HRes
 				for i := 0; i < n; i++ {
 					res = runHist(h, uint64(h.K)*1000+uint64(i)+uint64(os.Getpid())<<20)
-					if len(res.Fails) > 0 {
+					if len(res.Fails) > 0 || res.Transport > 0 {
 						break
 					}
+				}
+				if res.Transport > 0 {
+					rmu.Lock()
+					retry = append(retry, h)
+					rmu.Unlock()
+					continue
 				}
 				emit("RES", res)
 			}
@@ -1272,6 +1506,19 @@ func childMain(file string, par int) {
 	}
 	close(ch)
 	wg.Wait()
+	// histories in which a transport error hid the fate of a job: once more, alone, with gentler
+	// timing; if the transport still fails they are recorded as transport-fault, not judged
+	for _, h := range retry {
+		for i := range h.SleepMs {
+			if h.SleepMs[i] < 20 {
+				h.SleepMs[i] = 20
+			}
+		}
+		time.Sleep(300 * time.Millisecond)
+		res := runHist(h, uint64(h.K)*1000+500+uint64(os.Getpid())<<20)
+		res.Retried = true
+		emit("RES", res)
+	}
 }
 
 func runChild(hs []Hist, par int, dir string, results map[int]HRes, crashes *[]string) {
@@ -1388,7 +1635,7 @@ func main() {
 	)
 	runChild(hs, *par, fl.Out, results, &crashes)
 	byKey := map[string]int{}
-	raceRounds, raceKeys := 0, 0
+	raceRounds, raceKeys, transportHists, retried := 0, 0, 0, 0
 	var (
 		totalJobs, totalFrag, totalChan, totalRekey, chanReached, updMiss int
 		totalMs                                                           int64
@@ -1417,6 +1664,12 @@ func main() {
 			desc["rounds"] = res.Jobs
 			out.Count(h.Class, fmt.Sprintf("%d/%d", res.Jobs, res.Rekeys), res.Rekeys > 0)
 			raceRounds, raceKeys = raceRounds+res.Jobs, raceKeys+res.Rekeys
+		} else if res.Transport > 0 {
+			// the transport failed again in the gentler re-run: a fault history, outside the
+			// property; counted, not compared with the model, its unjudged jobs not failed
+			desc["transport_fault_jobs"], desc["not_judged"] = res.Transport, res.Diag
+			out.Count("transport-fault", fmt.Sprint(h.K), false)
+			transportHists++
 		} else if res.Panic == "" && len(res.Fails) == 0 {
 			out.Add(coqCase(h, res), h.Class, nontrivial, desc)
 		} else {
@@ -1431,6 +1684,9 @@ func main() {
 			out.Fail(f.What, f.Key, map[string]interface{}{"k": h.K, "class": h.Class, "clients": h.NCl, "profile": h.Profile, "sleep_ms": h.SleepMs,
 				"max_outstanding_jobs": h.MaxJobs, "max_outstanding_slots": h.MaxSlots, "ops": h.Ops, "kind": h.Kind, "rounds": h.Rounds, "log_tail": res.Diag})
 		}
+		if res.Retried {
+			retried++
+		}
 		totalJobs += res.Jobs
 		totalFrag += res.Frag
 		totalChan += res.Chan
@@ -1440,6 +1696,8 @@ func main() {
 		updMiss += res.Stats["update_not_seen"]
 	}
 	out.Extra("oracle_failures_by_key", byKey)
+	out.Extra("histories_rerun_after_transport_error", retried)
+	out.Extra("histories_recorded_as_transport_fault", transportHists)
 	out.Extra("rekey_race_rounds", raceRounds)
 	out.Extra("rekey_race_rekeys", raceKeys)
 	out.Extra("histories", len(hs))
@@ -1453,6 +1711,10 @@ func main() {
 	out.Extra("wall_ms", time.Since(t0).Milliseconds())
 	out.Extra("parallel", *par)
 	out.Extra("child_crashes", len(crashes))
+	if transportHists > 0 {
+		out.Note(fmt.Sprintf("%d history(ies) had a transport error (connect / read / write error, deadline, reset) on the session of a job that did not complete, in the first run "+
+			"and in the gentler re-run: fault histories are outside the property, they are counted as transport-fault and not judged", transportHists))
+	}
 	if updMiss > 0 {
 		out.Note(fmt.Sprintf("%d job(s) completed before the caller could set Job.Update (the field is assigned after Task returns): their completion was observed through Wait only", updMiss))
 	}
